@@ -3,6 +3,7 @@ environment. Serves C01 (cross-view invariants), C06 (Voronoi FPS vs brute-force
 under every clock) and C08 (history independence against a history-free twin)."""
 
 import contextlib
+import os
 import copy
 import importlib
 import numbers
@@ -414,7 +415,9 @@ class SelectorWorld:
         if self.pid == "C08" and m.get("c08_threshold_reached") and not op.get("expect"):
             self.count("out_of_domain_after_threshold_stop")
             return
-        if op.get("warm") and m.get("retired_for_warm") and not op.get("expect"):
+        if op.get("warm") and m.get("retired_for_warm") and op.get("retry_after_crash") and m.get("crashed_warm") and os.environ.get("HOSTSIM_WARM_AFTER_CRASH") == "1":
+            pass  # experiment: the continuation that crashed is retried
+        elif op.get("warm") and m.get("retired_for_warm") and not op.get("expect"):
             # the state left by a failed/interrupted fit is unspecified (DESIGN 5.4); after a
             # reported length inconsistency a continuation only repeats that report
             self.count("warm_after_inconsistent_state_skipped" if m.get("retired_reason") else "warm_after_failed_fit_skipped")
@@ -490,16 +493,22 @@ class SelectorWorld:
         if rec.exc is not None:
             self.count("fits_raised")
             self.log.add("FIT", name, warm, "raise", type(rec.exc).__name__)
-            if is_injected(rec.exc):
+            if op.get("retry_after_crash"):
+                # the retry of a crashed continuation may be refused
+                self.count("retry_after_crash_refused")
+            elif is_injected(rec.exc):
                 # the injected fault itself: a legitimately failed operation
                 self.count("fits_failed_by_injected_fault")
                 self.probe("fault_landed_inside_fit")
                 m["after_crash"] = True
+                m["crashed_warm"] = bool(warm and m["ok_fits"] > 0)
             else:
                 self.after_failed_fit(name, obj, m, op, rec)
             # state of a failed fit is unspecified: a later warm start is out of scope
             m["retired_for_warm"] = True
             return
+        if op.get("retry_after_crash"):
+            self.probe("retry_after_crash_succeeded")
         if m.pop("after_crash", False):
             self.probe("cold_fit_after_crashed_fit")
         m["retired_for_warm"] = False
